@@ -94,6 +94,11 @@ def integrate_instances(tier, prop):
                     out.append(dict(id="e2e-euler-a%g-d%d-%s" % (al, direction, "dense" if dense else "nodense"), kind="e2e", family="euler", alpha=al,
                                     dense=dense, direction=direction, budget=b))
     if prop == "C07":
+        # two steps, a SHALLOW time event (|slope| = 1e-6) crossing within 1e-9 of the boundary between them, real detector and root finder
+        for al in ((1e-6,) if quick else (1e-6, -1e-6, 1e-3)):
+            out.append(dict(id="e2e-euler-a%g-root-near-inner-boundary" % al, kind="e2e", family="euler", alpha=al, dense=True, direction=0,
+                            root_near_inner_boundary=True, budget=b))
+    if prop == "C07":
         for dense in (True, False):
             out.append(dict(id="integrate-euler-n-%s-N2-two-calls" % ("dense" if dense else "nodense"), kind="integrate", family="euler", events=["n"], dense=dense,
                             N=2, max_reports=3, two_calls=True, budget=b))
